@@ -261,6 +261,10 @@ def replay_case(pid, case, rec, extra=None):
         raise ValueError(f"unknown case kind {kind}")
 
 
+RESULT_TESTS = ("tests/integration/test_analysis_api.py", "tests/integration/test_accuracy.py",
+                "tests/unit/test_systems.py", "tests/integration/test_errors.py")
+
+
 def run_repo_tests(pid, rec, tests=("tests/unit/test_schedulers.py", "tests/integration/test_analysis_api.py",
                                     "tests/unit/test_utils.py")):
     """Thorough tier: the repository's own tests as an extra workload, with the monitors on
@@ -278,7 +282,7 @@ def run_repo_tests(pid, rec, tests=("tests/unit/test_schedulers.py", "tests/inte
     try:
         subprocess.run([sys.executable, "-m", "pytest", "-q", "-x", "-p", "no:cacheprovider",
                         "-p", "speckit_verif.pytest_plugin", "--timeout=900"] + list(tests),
-                       cwd=repo, env=env, timeout=1500, stdout=subprocess.DEVNULL,
+                       cwd=repo, env=env, timeout=2200, stdout=subprocess.DEVNULL,
                        stderr=subprocess.DEVNULL)
         data = json.load(open(out))
     except Exception as e:
@@ -291,8 +295,10 @@ def run_repo_tests(pid, rec, tests=("tests/unit/test_schedulers.py", "tests/inte
             pass
     rec.count("repo_test_plans_observed", data["plans"])
     rec.count("repo_test_kernel_calls_checked", data["kernel_checked"])
+    rec.count("repo_test_results_checked", data.get("results_checked", 0))
     rec.note(f"repository tests under monitors: {data['plans']} plans, {data['kernel_checked']} of "
-             f"{data['kernel_calls']} kernel calls checked, pytest exit {data['pytest_exitstatus']}")
+             f"{data['kernel_calls']} kernel calls checked, {data.get('results_checked', 0)} of "
+             f"{data.get('results', 0)} results checked, pytest exit {data['pytest_exitstatus']}")
     for v in data["violations"]:
         if v["kind"] == pid:
             rec.violation(v["key"], "during the repository's own tests: " + v["msg"])
